@@ -122,6 +122,11 @@ pub struct Junit {
 pub fn parse_junit(xml: &str) -> Result<Junit, String> {
     use quick_xml::events::Event;
     use quick_xml::Reader;
+    // XML 1.0 `Char`: #x9 | #xA | #xD | [#x20-#xD7FF] | [#xE000-#xFFFD] | [#x10000-#x10FFFF]
+    // (quick-xml does not check it)
+    if let Some(c) = xml.chars().find(|c| !matches!(*c as u32, 0x9 | 0xA | 0xD | 0x20..=0xD7FF | 0xE000..=0xFFFD | 0x10000..=0x10FFFF)) {
+        return Err(format!("XML not well-formed: the character U+{:04X} is not allowed in an XML 1.0 document", c as u32));
+    }
     let mut rd = Reader::from_str(xml);
     rd.check_end_names(true);
     let mut j = Junit { cases: vec![], tests_attr: None, failures_attr: None, errors_attr: None };
@@ -494,11 +499,20 @@ fn finish(doc_text: String, text: String, r: Result<Option<(Obs, usize)>, (Strin
 }
 
 fn random_case(u: &mut Choices, sz: Size) -> CaseResult {
-    let doc = gen_cfn_doc(u, &sz);
+    let mut doc = gen_cfn_doc(u, &sz);
     let msgs = u.chance(1, 2);
     let file = gen_wide_file(u, &doc, sz, msgs);
+    let mut text = print_file(&file);
+    // one case in six: a failing value that holds markup and control characters (it is quoted in
+    // every report: the structured renderings must stay well formed)
+    if u.chance(1, 6) {
+        let nasty = *u.pick(&["a\u{1}<b ]]> & \u{b}", "<![CDATA[ x ]]> \u{1b}[31m", "\"quoted\" 'single' \u{8}", "tab\there\nnewline \u{1f}"]);
+        if let V::Map(m) = &mut doc {
+            m.push(("ctl".into(), V::s(nasty)));
+        }
+        text.push_str("rule zctl {\n  ctl == 2 <<zctl message>>\n}\n");
+    }
     let doc_text = doc.to_json();
-    let text = print_file(&file);
     let mut evals = 0;
     let r = check_all(&doc_text, &text, &mut evals);
     finish(doc_text, text, r, evals, vec![])
